@@ -284,6 +284,12 @@ func c19(ctx *core.Ctx) {
 				req.HasAcc, req.Accept = true, r.Pick([]string{restful.MIME_JSON, restful.MIME_XML})
 				req.Hdr["X-Do"] = "pretty-off"
 			}
+			if q == 12 || q == 28 {
+				// the echo route again, but the body is not what Content-Encoding says (a client bug): whatever the answer is,
+				// it is the same every time and the well-formed uploads before, after and next to it are read as sent
+				plain := fmt.Sprintf(`{"id": %d, "pad": "not compressed at all"}`, ci*100+q)
+				req = rt.Req{Method: "POST", Path: "/echo19/", HasCT: true, CT: "application/json", Hdr: map[string]string{"Content-Encoding": "gzip"}, Body: []byte(plain), BodyLen: len(plain), Slow: q == 28, Class: "gzip-echo-broken"}
+			}
 			switch q {
 			case 11, 13, 21:
 				req = rt.Req{Method: "GET", Path: "/lit19/doc", HasAcc: true, Accept: map[int]string{11: restful.MIME_JSON, 13: restful.MIME_XML, 21: "text/plain"}[q], Hdr: map[string]string{}, Class: "literal-twins"}
